@@ -695,7 +695,8 @@ class BodyPartReader:
         if encoding in {"deflate", "gzip"}:
             d = ZLibDecompressor(
                 encoding=encoding,
-                suppress_deflate_header=True,
+                # deflate: zlib wrapped (RFC 1950, CM = 8) or a raw stream.
+                suppress_deflate_header=not data or data[0] & 0xF != 8,
             )
             decoded = d.decompress_sync(data, max_length=self._max_decompress_size)
             while d.data_available:
@@ -717,7 +718,8 @@ class BodyPartReader:
             if d is None or d.eof:
                 d = self._decompressor = ZLibDecompressor(
                     encoding=encoding,
-                    suppress_deflate_header=True,
+                    # deflate: zlib wrapped (RFC 1950, CM = 8) or a raw stream.
+                    suppress_deflate_header=not data or data[0] & 0xF != 8,
                 )
             yield await d.decompress(data, max_length=self._max_decompress_size)
             while d.data_available:
